@@ -19,6 +19,10 @@ pub trait Sc:
     fn powf(self, e: f64) -> Self;
     /// the same value treated as a constant (no derivative flows through it)
     fn detach(self) -> Self;
+    /// logistic function (overridable: the magnitude scalar bounds the terms of s * (1 - s), not their difference)
+    fn sigmoid(self) -> Self {
+        Self::c(1.0) / (Self::c(1.0) + (-self).exp())
+    }
 }
 
 impl Sc for f64 {
@@ -226,6 +230,12 @@ impl Sc for DA {
     }
     fn powf(self, e: f64) -> DA {
         DA { v: self.v.powf(e), a: if e == 0.0 { 0.0 } else { (e * self.v.powf(e - 1.0)).abs() * self.a } }
+    }
+    fn sigmoid(self) -> DA {
+        // the derivative s * (1 - s) is made of the terms s * 1 and s * s: for a saturated input their difference is far
+        // smaller than either, and its rounding error is relative to the terms
+        let s = 1.0 / (1.0 + (-self.v).exp());
+        DA { v: s, a: s * (1.0 + s) * self.a }
     }
 }
 
@@ -461,7 +471,7 @@ impl<S: Sc> T<S> {
         self.map(|x| if x.val() > 0.0 { x } else { S::zero() })
     }
     pub fn sigmoid(&self) -> T<S> {
-        self.map(|x| S::c(1.0) / (S::c(1.0) + (-x).exp()))
+        self.map(|x| x.sigmoid())
     }
     pub fn softmax(&self) -> T<S> {
         let e = self.map(|x| x.exp());
